@@ -69,6 +69,13 @@ CLAIMS = {
             'and offset of the access they perform. Compiled code is run in a child against guard pages on the address grid and compared with the interpreter\'s '
             'decision (C02 theorem) and with the IR model. PARTIAL in that Cranelift\'s code generation is trusted (exercised, not verified).',
             'Cranelift IR semantics modelled by hand (ClirSem.v); IR -> machine code trusted.'),
+    'C12': ('proof', 'PARTIAL. Theorems C12_jit_jump_targets / C12_jit_call_targets: for every program accepted by the (regenerated) verifier, the target that the x86-64 JIT '
+            'records for each jump and local call (expression regenerated from jit.rs) is an instruction start of the program, so resolve_jumps\' indexing '
+            'pc_locs[target as usize] is inside the nslots+1 entries allocated and hits a filled entry; C12_register_map: the register map is injective and avoids '
+            'RCX/R10/R11/RSP. The byte emission / two-pass sizing and all of Cranelift are not modelled: verifier-accepted corpora (random well-formed streams, every '
+            'opcode with extreme operands, up to 70000 instructions quick / 999999 thorough, far jumps, 3 helper sets) are compiled twice by both compilers in a child '
+            'process and must give OK or ERR both times. This search found the Cranelift jump-to-first-instruction panic (fixed: a516a8e).',
+            'Only the bookkeeping logic is proved; panics / overruns elsewhere are searched for, not excluded.'),
     'C13': ('proof', 'Theorems C13_instruction / C13_program: for every mnemonic string and every operand list with 64-bit operand values, the instruction map '
             '(regenerated by partial evaluation of make_instruction_map), encode, insn and the lddw second slot regenerated from assembler.rs give exactly '
             'the slots of the independently written specification AsmSpec.denote (table by ISA numbering, shapes, range limits, lddw split, unused fields '
